@@ -102,7 +102,7 @@ def _make_run(spec, limits):
         H0 = np.diag(np.array(spec["k"]))
         model = mudslide.models.HarmonicModel(np.zeros(nd), 0.0, H0, np.array(spec["mass"]))
         return mudslide.AdiabaticMD(model, np.array(spec["x0"]), np.array(spec["p0"]), **opts), model
-    model = mudslide.models.scattering_models[spec["model"]]()
+    model = mudslide.models.scattering_models[spec["model"]](representation=spec.get("representation", "adiabatic"))
     opts["zeta_list"] = [1e300] * 5000
     tr = getattr(mudslide, spec["cls"])(model, np.array(spec["x0"]), np.array(spec["p0"]), 0, **opts)
     return tr, model
@@ -288,6 +288,8 @@ def run(ctx):
                         p0=[float(rng.uniform(8, 25))], dt=float(rng.choice([10.0, 20.0])), seed=int(rng.integers(1, 10 ** 6)),
                         free_steps=160)
         spec["t0"] = float(rng.choice([0.0, 3.5, -20.0]))
+        if cls == "Ehrenfest" and (i // 5) % 2 == 0:
+            spec["representation"] = "diabatic"        # non-diagonal H: the mean-field potential has a coherence part
         free, model = _make_run(spec, {"maxsteps": spec["free_steps"]})
         pos = [np.asarray(s["position"]) for s in free.simulate()]
         nd = len(pos[0])
@@ -301,6 +303,19 @@ def run(ctx):
                 limits["maxsteps"] = int(rng.choice([0, 1, k]))
             elif r < 0.6:
                 limits["maxtime"] = float(spec["t0"] + k * spec["dt"] + rng.choice([0.0, 1e-8, -1e-8, 2e-8, -2e-8, 0.3 * spec["dt"]]))
+            elif r < 0.75:
+                # the trajectory STARTS inside the box and leaves it after m steps (m = 1: on its very first step)
+                m = int(rng.choice([1, 1, 2, 5]))
+                xs = np.array(pos[:m + 1])
+                reach = np.max(np.abs(xs[:m] - xs[0]), axis=0) if m > 1 else np.zeros(nd)
+                far = np.abs(xs[m] - xs[0])
+                d = int(np.argmax(far - reach))
+                w = np.full(nd, 1e6)
+                w[d] = 0.5 * (far[d] + reach[d])
+                if not (reach[d] < w[d] < far[d]):
+                    w[d] = 0.5 * far[d]
+                limits["box"] = (list(xs[0] - w), list(xs[0] + w)) if (nd > 1 or rng.random() < 0.5) else (float(xs[0][0] - w[0]), float(xs[0][0] + w[0]))
+                ctx.count("box_runs_starting_inside")
             else:
                 xs = np.array(pos)
                 lo, hi = xs.min(axis=0), xs.max(axis=0)
@@ -320,7 +335,7 @@ def run(ctx):
             ranout, msteps, nlog = int(o[1]), int(o[2]), int(o[4])
             mtimes = [unfb(o[6 + 2 * q]) for q in range(nlog)]
             which = "steps" if "maxsteps" in limits and "box" not in limits else ("time" if "maxtime" in limits else "box")
-            ctx.case((cls, which, limits["te"], run_.nsteps == 0), {"op": "loop", "class": cls, "limits": limits,
+            ctx.case((cls, which, limits["te"], min(run_.nsteps, 2), spec.get("representation", "adiabatic")), {"op": "loop", "class": cls, "limits": limits,
                                                                     "impl_steps": run_.nsteps, "impl_times": times[:6],
                                                                     "model_steps": msteps, "model_times": mtimes[:6]})
             ctx.count("run:%s:%s" % (cls, which))
